@@ -161,13 +161,19 @@ def run(ck):
             for t in n.targets:
                 if isinstance(t, ast.Subscript) and norm(t.value) == "cache":
                     n_keys += 1
-                    k = norm(t.slice)
-                    # accepted keys: the parameter, or a local defined once as expr_simp(parameter) / the parameter itself
-                    d_ = rc_.unique_def(k) if k.isidentifier() else None
-                    from_input = k == ep_ or (d_ is not None and ep_ in [x.id for x in ast.walk(d_) if isinstance(x, ast.Name)] and
-                                              not any(isinstance(c, ast.Call) and isinstance(c.func, ast.Name) and c.func.id == "func" for c in ast.walk(d_)))
-                    if not from_input or k in ret_names:
-                        key_bad.append(norm(n)[:60])
+                    k0 = norm(t.slice)
+                    # a key taken from a loop over a display of names stands for each of them: `for key in (expr, simplified): cache[key] = v`
+                    ks = [k0]
+                    for lp_ in walk_body(ev_):
+                        if isinstance(lp_, ast.For) and isinstance(lp_.target, ast.Name) and lp_.target.id == k0 and isinstance(lp_.iter, (ast.Tuple, ast.List)):
+                            ks = [norm(e_) for e_ in lp_.iter.elts]
+                    for k in ks:
+                        # accepted keys: the parameter, or a local defined once as expr_simp(parameter) / the parameter itself
+                        d_ = rc_.unique_def(k) if k.isidentifier() else None
+                        from_input = k == ep_ or (d_ is not None and ep_ in [x.id for x in ast.walk(d_) if isinstance(x, ast.Name)] and
+                                                  not any(isinstance(c, ast.Call) and isinstance(c.func, ast.Name) and c.func.id == "func" for c in ast.walk(d_)))
+                        if not from_input or k in ret_names:
+                            key_bad.append("%s (key %s)" % (norm(n)[:50], k))
     ck.ob("R2", "eval_expr_visitor:cache-keys-are-inputs", n_keys >= 1 and not key_bad, m.where(ev_),
           "the evaluation cache is filled under a key that is not the expression asked for (%s): a result, expressed over the initial symbols, "
           "would be looked up as if it were read in the current state" % "; ".join(key_bad))
